@@ -6,15 +6,18 @@
 package mqtt
 
 //@ func mqtt.stringCheck
+//@ pure
 //@ ensures[C09] (result == nil) == (len(s) <= 65535 && utf8ok(arr(s), off(s), len(s)) && !hasnul(arr(s), off(s), len(s)))
 //@ ensures[C09] result != nil ==> (result == errStringMax || result == errUTF8 || result == errNull)
 //@ ensures[C09] result == errStringMax ==> len(s) > 65535
 
 //@ func mqtt.topicCheck
+//@ pure
 //@ ensures[C09] (result == nil) == (len(s) > 0 && len(s) <= 65535 && utf8ok(arr(s), off(s), len(s)) && !hasnul(arr(s), off(s), len(s)))
 //@ ensures[C09] result != nil ==> (result == errZero || result == errStringMax || result == errUTF8 || result == errNull)
 
 //@ func mqtt.publishPacket -> r, err
+//@ modifies elems(buf[:])
 //@ loop 1: unroll 4
 //@ ensures[C09] (err != nil) == (len(topic) == 0 || len(topic) > 65535 || !utf8ok(arr(topic), off(topic), len(topic)) || hasnul(arr(topic), off(topic), len(topic)) || pubrem(len(topic), len(message), packetID) > 268435455)
 //@ ensures[C09] err != nil ==> (Is(err, errZero) || Is(err, errStringMax) || Is(err, errUTF8) || Is(err, errNull) || Is(err, errPacketMax))
@@ -30,7 +33,9 @@ package mqtt
 //@ ensures[C09] err == nil && packetID != 0 ==> r[0][len(r[0])-2] == (packetID / 256) % 256 && r[0][len(r[0])-1] == packetID % 256
 
 //@ func mqtt.writeTo -> err
+//@ modifies wire(conn), wire_len(conn), wdl(conn)
 //@ requires conn != nil
+//@ loop 1: modifies wire(conn), wire_len(conn), wdl(conn)
 //@ loop 1: invariant ref(p) == ref(old(p)) && len(p) <= len(old(p)) && off(p) + len(p) == off(old(p)) + len(old(p))
 //@ loop 1: invariant wire_len(conn) == old(wire_len(conn)) + (len(old(p)) - len(p))
 //@ loop 1: invariant forall(k, 0, old(wire_len(conn)), wire(conn)[k] == old(wire(conn))[k])
@@ -42,9 +47,11 @@ package mqtt
 //@ ensures[C08] forall(k, 0, len(p), p[k] == old(p[k]))
 
 //@ func mqtt.(*Client).peekPacket -> head, err
+//@ modifies c.peek, rx_pos(c.bufr), rx_buf(c.bufr), rx_pend(c.bufr), rdl(c.readConn)
 //@ requires c.bufr != nil && c.readConn != nil
 //@ loop 1: unroll 5
 //@ loop 2: let P = rx_pos(c.bufr)
+//@ loop 2: modifies c.peek, rx_buf(c.bufr), rx_pend(c.bufr), rdl(c.readConn)
 //@ loop 2: invariant rx_pos(c.bufr) == P
 //@ ensures[C13] (err == nil || hastype(err, *BigMessage)) ==> rx_pos(c.bufr) - old(rx_pos(c.bufr)) >= 2 && rx_pos(c.bufr) - old(rx_pos(c.bufr)) <= 5
 //@ ensures[C13] err == nil ==> len(c.peek) <= 268435455
@@ -76,13 +83,16 @@ package mqtt
 
 // Signal channels: singleton holders.
 //@ func mqtt.(*Client).Online -> ch
+//@ modifies chanstate(c.onlineSig)
 //@ requires c.onlineSig != nil && !closed(c.onlineSig) && cap(c.onlineSig) == 1
 //@ ensures !closed(c.onlineSig) && cap(c.onlineSig) == 1
 
 // lockWrite: takes the write token. nil error: the token (a live connection) is held.
 //@ func mqtt.(*Client).lockWrite -> conn, err
+//@ modifies chanstate(c.writeSem), chanstate(c.onlineSig)
 //@ requires c.writeSem != nil && cap(c.writeSem) == 1 && c.onlineSig != nil && !closed(c.onlineSig) && cap(c.onlineSig) == 1 && c.ctx != nil
 //@ requires closed(c.writeSem) ==> len(c.writeSem) == 0
+//@ loop 1: modifies chanstate(c.writeSem), chanstate(c.onlineSig)
 //@ loop 1: invariant cap(c.writeSem) == 1 && !closed(c.onlineSig) && cap(c.onlineSig) == 1 && (closed(c.writeSem) ==> len(c.writeSem) == 0)
 //@ loop 1: invariant forall(k, wire_len(k) == old(wire_len(k)))
 //@ ensures[C08,C14,C18] err == nil ==> conn != nil && conn != boxed(connSignal, 0) && conn != boxed(connSignal, 1) && len(c.writeSem) == 0 && !closed(c.writeSem)
@@ -207,7 +217,9 @@ package mqtt
 
 // unordered transactions: one callback per identifier, under the mutex
 //@ func mqtt.(*unorderedTxs).startTx -> packetID, done, err
+//@ modifies txs.n, region("map.map[uint16]mqtt.unorderedCallback"), region("map.len")
 //@ requires txs.perPacketID != nil
+//@ loop 1: modifies txs.n
 //@ loop 1: invariant forall(k, has(txs.perPacketID, k) == old(has(txs.perPacketID, k)) && at(txs.perPacketID, k) == old(at(txs.perPacketID, k))) && len(txs.perPacketID) == old(len(txs.perPacketID))
 //@ ensures[C11,C17] err != nil ==> err == ErrMax && old(len(txs.perPacketID)) > 511 && packetID == 0 && done == nil
 //@ ensures[C11,C17] err != nil ==> forall(k, has(txs.perPacketID, k) == old(has(txs.perPacketID, k)) && at(txs.perPacketID, k) == old(at(txs.perPacketID, k))) && len(txs.perPacketID) == old(len(txs.perPacketID))
@@ -217,6 +229,7 @@ package mqtt
 //@ ensures[C11,C17] err == nil ==> forall(k, k != packetID ==> has(txs.perPacketID, k) == old(has(txs.perPacketID, k)) && at(txs.perPacketID, k) == old(at(txs.perPacketID, k)))
 
 //@ func mqtt.(*unorderedTxs).endTx -> done, topicFilters
+//@ modifies region("map.map[uint16]mqtt.unorderedCallback"), region("map.len")
 //@ requires txs.perPacketID != nil
 //@ ensures[C11] !has(txs.perPacketID, packetID)
 //@ ensures[C11] old(has(txs.perPacketID, packetID)) ==> done == old(at(txs.perPacketID, packetID)).done && topicFilters == old(at(txs.perPacketID, packetID)).topicFilters
@@ -247,8 +260,10 @@ package mqtt
 
 // writeBuffersTo: as writeTo, over the flattened buffers.
 //@ func mqtt.writeBuffersTo -> err
+//@ modifies wire(conn), wire_len(conn), wdl(conn), elems(p)
 //@ requires conn != nil
-//@ loop 1: invariant flatlen(p) >= 0 && flatlen(p) <= old(flatlen(p)) && wire_len(conn) == old(wire_len(conn)) + (old(flatlen(p)) - flatlen(p))
+//@ loop 1: modifies wire(conn), wire_len(conn), wdl(conn), p, elems(old(p))
+//@ loop 1: invariant ref(p) == ref(old(p)) && flatlen(p) >= 0 && flatlen(p) <= old(flatlen(p)) && wire_len(conn) == old(wire_len(conn)) + (old(flatlen(p)) - flatlen(p))
 //@ loop 1: invariant forall(k, 0, old(wire_len(conn)), wire(conn)[k] == old(wire(conn))[k])
 //@ loop 1: invariant forall(i, old(wire_len(conn)), wire_len(conn), wire(conn)[i] == old(flatat(p, i - old(wire_len(conn)))))
 //@ loop 1: invariant forall(d, d == old(flatlen(p)) - flatlen(p) ==> forall(k, 0, flatlen(p), flatat(p, k) == old(flatat(p, d + k))))
@@ -256,3 +271,42 @@ package mqtt
 //@ ensures[C08] forall(k, 0, old(wire_len(conn)), wire(conn)[k] == old(wire(conn))[k])
 //@ ensures[C08] forall(i, old(wire_len(conn)), wire_len(conn), wire(conn)[i] == old(flatat(p, i - old(wire_len(conn)))))
 //@ ensures[C08,C14] err == nil ==> wire_len(conn) == old(wire_len(conn)) + old(flatlen(p))
+
+// Stored record layout: packet bytes, 8-byte little-endian sequence number,
+// 4-byte big-endian FNV-1a over both.
+//@ func mqtt.decodeValue -> packet, seqNo, err
+//@ pure
+//@ ensures[C15] (err == nil) == (len(buf) >= 12 && fnvfold(2166136261, arr(buf), off(buf), len(buf) - 4) % 4294967296 == buf[len(buf)-4]*16777216 + buf[len(buf)-3]*65536 + buf[len(buf)-2]*256 + buf[len(buf)-1])
+//@ ensures[C15] err == nil ==> ref(packet) == ref(buf) && off(packet) == off(buf) && len(packet) == len(buf) - 12
+//@ ensures[C15] err == nil ==> seqNo == buf[len(buf)-12] + buf[len(buf)-11]*256 + buf[len(buf)-10]*65536 + buf[len(buf)-9]*16777216 + buf[len(buf)-8]*4294967296 + buf[len(buf)-7]*1099511627776 + buf[len(buf)-6]*281474976710656 + buf[len(buf)-5]*72057594037927936
+//@ ensures[C15] err != nil ==> packet == nil && seqNo == 0
+//@ ensures[C15] forall(k, 0, len(buf), buf[k] == old(buf[k]))
+
+//@ func mqtt.encodeValue -> r
+//@ modifies elems(packet), fnv_state
+//@ loop 1: modifies fnv_state(digest)
+//@ loop[reveal=fnvbufs_] 1: invariant fnv_state(digest) == fnvbufs(packet, rangeindex + 1)
+//@ ensures[C15] len(r) == len(packet) + 1 && forall(i, 0, len(packet), r[i] == old(packet[i]))
+//@ ensures[C15] len(r[len(packet)]) == 12 && fresh(r[len(packet)])
+//@ ensures[C15,reveal=flatlen_] flatlen(r) == old(flatlen(packet)) + 12
+//@ ensures[C15] r[len(packet)][0] == seqNo % 256 && r[len(packet)][1] == (seqNo / 256) % 256 && r[len(packet)][2] == (seqNo / 65536) % 256 && r[len(packet)][3] == (seqNo / 16777216) % 256
+//@ ensures[C15] r[len(packet)][4] == (seqNo / 4294967296) % 256 && r[len(packet)][5] == (seqNo / 1099511627776) % 256 && r[len(packet)][6] == (seqNo / 281474976710656) % 256 && r[len(packet)][7] == (seqNo / 72057594037927936) % 256
+//@ ensures[C15] r[len(packet)][8]*16777216 + r[len(packet)][9]*65536 + r[len(packet)][10]*256 + r[len(packet)][11] == fnvfold(old(fnvbufs(packet, len(packet))), arr(r[len(packet)]), off(r[len(packet)]), 8) % 4294967296
+//@ ensures[C15] forall(i, 0, len(packet), forall(k, 0, len(packet[i]), packet[i][k] == old(packet[i][k])))
+
+// ruggedPersistence: every read goes through decodeValue; every write through encodeValue with the next sequence number.
+//@ func mqtt.(*ruggedPersistence).Load -> value, err
+//@ requires r.Persistence != nil
+//@ ensures[C15,C16] st_has(r.Persistence, key) && st_len(r.Persistence, key) < 12 ==> err != nil && value == nil
+//@ ensures[C15] err == nil && value != nil ==> st_has(r.Persistence, key) && st_len(r.Persistence, key) >= 12 && len(value) == st_len(r.Persistence, key) - 12
+//@ ensures[C15] err == nil && value != nil ==> forall(k, 0, len(value), value[k] == st_val(r.Persistence, key)[k])
+//@ ensures[C15] err == nil && value == nil ==> !st_has(r.Persistence, key)
+//@ ensures[C15] err != nil ==> value == nil
+//@ ensures[C15,C16] forall(k, st_has(r.Persistence, k) == old(st_has(r.Persistence, k)))
+
+//@ func mqtt.(*ruggedPersistence).Save -> err
+//@ requires r.Persistence != nil
+//@ ensures[C15,C02] r.seqNo.v == (old(r.seqNo.v) + 1) % 18446744073709551616
+//@ ensures[C15] err != nil ==> st_has(r.Persistence, key) == old(st_has(r.Persistence, key)) && st_len(r.Persistence, key) == old(st_len(r.Persistence, key)) && st_val(r.Persistence, key) == old(st_val(r.Persistence, key))
+//@ ensures[C15] err == nil ==> st_has(r.Persistence, key) && st_len(r.Persistence, key) == old(flatlen(value)) + 12
+//@ ensures[C15] forall(k, k != key ==> st_has(r.Persistence, k) == old(st_has(r.Persistence, k)) && st_len(r.Persistence, k) == old(st_len(r.Persistence, k)) && st_val(r.Persistence, k) == old(st_val(r.Persistence, k)))
